@@ -71,6 +71,7 @@ StepRules(st, self, types, cache) ==
   \cup (IF (term /\ k = "Restart") => (st.ret = "nil" /\ st.net = << >> /\ st.tr = << >> /\ st.val = << >>) THEN {} ELSE {"C02.restartNoop"})
   \cup (IF (term /\ isReqStim /\ m.kind = "Restart") => (~reply.accepted /\ ~applied("Restart")) THEN {} ELSE {"C02.restartRefused"})
   \cup (IF (term /\ k = "Close") => st.ret = "nil" THEN {} ELSE {"C02.closeOk"})
+  \cup (IF (term /\ k = "RecvRestartExisting") => (st.net = << >> /\ st.tr = << >> /\ st.val = << >>) THEN {} ELSE {"C02.restartExistingRefused"})
   (* ---------------- C04 ---------------- *)
   \cup (IF st.panic = "" THEN {} ELSE {"C04.noPanic"})
   \cup (IF ((isReqStim /\ m.kind \in {"New","Restart"}) \/ k = "Restart")
